@@ -13,6 +13,8 @@ import (
 	"strconv"
 	"strings"
 	"sync"
+	"sync/atomic"
+	"time"
 )
 
 // Finding is one line of /verif/known_findings.jsonl.
@@ -148,7 +150,25 @@ func replayDir(id string) string {
 // Violate writes the failing case as a replay file (overwriting earlier, larger versions
 // written while rapid was shrinking the same test) and records the violation.
 // It returns the replay path. The caller then fails the test.
+// violated is set once this process has recorded a violation: from then on rapid is shrinking
+// a failing case and re-runs it many times.
+var violated int32
+
+// Patience is how long a watchdog waits for something that takes milliseconds when all is
+// well: d until the process has recorded its first violation, a fifth of d (at least 2 s)
+// afterwards, so that shrinking a case whose failure is a hang does not take d per attempt.
+func Patience(d time.Duration) time.Duration {
+	if atomic.LoadInt32(&violated) == 0 || d <= 2*time.Second {
+		return d
+	}
+	if d/5 < 2*time.Second {
+		return 2 * time.Second
+	}
+	return d / 5
+}
+
 func (r *Recorder) Violate(test string, c interface{}, msg string) string {
+	atomic.StoreInt32(&violated, 1)
 	seed := os.Getenv("VERIF_SHARD_SEED")
 	if seed == "" {
 		seed = "0"
